@@ -52,8 +52,10 @@ PLANS = {
                      ("c04_t4", ("delimited",), session_check.READ_ACTIONS, None, None, None)],
     },
     "C07": {
-        "quick": [("c07_h%d" % h, BOTH + ("cli",), session_check.READ_ACTIONS, None, None, None) for h in range(0, 4)],
-        "thorough": [("c07_h%d_t5" % h, BOTH + ("cli",), session_check.READ_ACTIONS, None, None, None) for h in range(0, 4)],
+        "quick": [("c07_h%d" % h, BOTH + ("cli",), session_check.READ_ACTIONS, None, None, None) for h in range(0, 4)]
+        + [("c07_again_h1", ("delimited",), session_check.READ_ACTIONS + ["ReadAgain"], 4000, None, None)],
+        "thorough": [("c07_h%d_t5" % h, BOTH + ("cli",), session_check.READ_ACTIONS, None, None, None) for h in range(0, 4)]
+        + [("c07_again_h%d" % h, BOTH, session_check.READ_ACTIONS + ["ReadAgain"], 60000, None, None) for h in (0, 1)],
     },
     "C08": {
         "quick": [("c08_hist2", ("delimited",), RW, 4000, None, None),
@@ -69,11 +71,14 @@ PLANS = {
                   ("c14_h1_t3", BOTH + ("fixed:none", "fixed:crlf"), session_check.WRITE_ACTIONS, None, None, None),
                   # targets with a limited encoding: rows the CID accepts and the container refuses
                   ("c14_enc_h0", FILE_TARGETS, session_check.WRITE_ACTIONS, None, None, None),
-                  ("c14_enc_h1", ("fixed@file",), session_check.WRITE_ACTIONS, None, None, None)],
+                  ("c14_enc_h1", ("fixed@file",), session_check.WRITE_ACTIONS, None, None, None),
+                  ("c14_encud_h0", ("delimited@file", "fixed@file"), session_check.WRITE_ACTIONS, None, None, None)],
         "thorough": [("c14_h0_t4", BOTH + FIXED_VARIANTS, session_check.WRITE_ACTIONS, None, None, None),
                      ("c14_h1_t4", BOTH + FIXED_VARIANTS, session_check.WRITE_ACTIONS, None, None, None),
                      ("c14_enc_h0", FILE_TARGETS + ("fixed:crlf@file", "fixed:cr@file"), session_check.WRITE_ACTIONS, None, None, None),
-                     ("c14_enc_h1", FILE_TARGETS + ("fixed:crlf@file", "fixed:cr@file"), session_check.WRITE_ACTIONS, None, None, None)],
+                     ("c14_enc_h1", FILE_TARGETS + ("fixed:crlf@file", "fixed:cr@file"), session_check.WRITE_ACTIONS, None, None, None),
+                     ("c14_encud_h0", FILE_TARGETS, session_check.WRITE_ACTIONS, None, None, None),
+                     ("c14_encud_h1", FILE_TARGETS, session_check.WRITE_ACTIONS, None, None, None)],
     },
 }
 
@@ -82,6 +87,7 @@ PLANS = {
 PINNED = {
     "C05": [("c05_uu_pinned", "D12 register-on-reach")],
     "C06": [("c06_pinned_endchecks", "D8 end checks replace the error that ended the run")],
+    "C14": [("c14_enc_pinned", "D14 the checks see a row before the container refuses it")],
     "C08": [("c08_pinned_reset", "D2/D13 checks are not reset when a reader or writer is created"),
             ("c08_pinned_start", "checks are not reset at the start of rows(): a reader created early and read late inherits "
                                  "what other readers and writers did in between")],
